@@ -105,6 +105,7 @@ func NewContractSet() *ContractSet {
 }
 
 var reLoop = regexp.MustCompile(`^loop\s+(\d+)(?:\s+index\s+(\w+))?\s*:?$`)
+var reAtBody = regexp.MustCompile(`^at\s+body\s+loop\s+(\d+)\s*:\s*(.*)$`)
 var reAt = regexp.MustCompile(`^at\s+(before|after)\s+call\s+([\w.]+)#(\d+)\s*:\s*(.*)$`)
 var reNamed = regexp.MustCompile(`^([A-Za-z_][\w.\-#]*)\s*:\s*(.*)$`)
 var reProp = regexp.MustCompile(`^C\d{2,3}$`)
@@ -398,6 +399,15 @@ func (cs *ContractSet) LoadContractFile(path string, pkgName string) error {
 				curLoop = &LoopSpec{Ord: n, Index: m[2]}
 				cur.Loops[n] = curLoop
 			case "at":
+				if mb := reAtBody.FindStringSubmatch(t); mb != nil {
+					n, _ := strconv.Atoi(mb[1])
+					lhs, rhs, err := ParseGhostStmt(mb[2])
+					if err != nil {
+						return fail(i, "%v", err)
+					}
+					cur.GhostAts = append(cur.GhostAts, GhostAt{Kind: "body", Ord: n, LHS: lhs, RHS: rhs, Src: mb[2]})
+					break
+				}
 				m := reAt.FindStringSubmatch(t)
 				if m == nil {
 					return fail(i, "bad ghost anchor %q", t)
